@@ -21,10 +21,11 @@ import (
 	"github.com/emitter-io/emitter/internal/security/license"
 	"github.com/emitter-io/emitter/internal/verifx/engine/brokerx"
 	"github.com/emitter-io/emitter/internal/verifx/engine/core"
+	"github.com/emitter-io/emitter/internal/verifx/engine/sched"
 )
 
 func init() {
-	core.Register(&core.Check{ID: "C03", Level: "exploration", Run: run, Replay: replay})
+	core.Register(&core.Check{ID: "C03", Level: "exploration", Run: run, Replay: replay, Worker: schedWorker})
 }
 
 // ---- the bounded grammar -------------------------------------------------------------------
@@ -938,6 +939,14 @@ func run(c *core.Ctx) {
 		}
 	}
 	c.Set("evaluations", all.evals)
+	// (conc) two simultaneous requests: one preemption in the quick tier (XTEA is a long straight line), two in the thorough tier
+	bound := 1
+	if !c.Quick() {
+		bound = 2
+	}
+	c.Set("sched_bound_completed", sched.Drive(c, concOrder(), bound))
+	c.Set("sched_schedules", c.Count("schedules"))
+	c.Assume("concurrent requests: statement-level, sequentially consistent interleavings of two callers through channel parsing, key decryption and target validation; contract lookup and ban list are not part of the interleaved region")
 	c.Set("reference_permits", all.permit)
 	c.Set("reference_refuses", all.refuse)
 	c.Set("disagreeing_evaluations", all.fails)
@@ -973,7 +982,16 @@ func run(c *core.Ctx) {
 }
 
 // replay re-runs one recorded (minimal) case against the real code.
+func schedWorker(c *core.Ctx, args []string) {
+	if len(args) > 0 && args[0] == "sched" {
+		sched.WorkerMain(c, concScenarios(), args[1:])
+	}
+}
+
 func replay(c *core.Ctx, raw json.RawMessage) {
+	if sched.ReplayCase(c, concScenarios(), raw) {
+		return
+	}
 	var rec caseRec
 	if err := json.Unmarshal(raw, &rec); err != nil {
 		c.Violate("replay:bad-case", err.Error(), nil)
